@@ -9,3 +9,4 @@ open GoSQLXModel
 #print axioms Props.C02.tokenizer_stack_bounded
 #print axioms Props.C12.strict_terminates
 #print axioms Props.C12.recovery_terminates
+#print axioms Props.C01.gen_parser_loops_leave_at_end
